@@ -446,6 +446,11 @@ func Safe(f func() string) (out string) {
 }
 
 // SafeT is Safe with a watchdog: "TIMEOUT" if f does not return in d (the goroutine is leaked).
+// A verdict "the call does not return" must not depend on how busy the machine is: on a loaded host (several checks
+// at once, a garbage-collection pause under memory pressure) a goroutine can be starved for many seconds although the
+// call itself takes a millisecond.  When the limit d passes, the SAME call (no re-execution, so no side effects twice)
+// is therefore given a grace period of nine more d, at least 60 s in total; a call that is really spinning still ends
+// as TIMEOUT, a starved one returns its real result.
 func SafeT(d time.Duration, f func() string) string {
 	ch := make(chan string, 1)
 	go func() { ch <- Safe(f) }()
@@ -453,6 +458,15 @@ func SafeT(d time.Duration, f func() string) string {
 	case s := <-ch:
 		return s
 	case <-time.After(d):
+	}
+	grace := 9 * d
+	if d+grace < 60*time.Second {
+		grace = 60*time.Second - d
+	}
+	select {
+	case s := <-ch:
+		return s
+	case <-time.After(grace):
 		return "TIMEOUT"
 	}
 }
